@@ -128,6 +128,25 @@ def judge_name(ctx, name, flags=None):
             ctx.count("round_trips")
             if back != name:
                 ctx.violation("round-trip", case, "fromXmlName(%r) = %r, original %r" % (out, back, name))
+            # the library decodes with a filter object of its own (etree tostring, the lxml walker): an instance that has
+            # never escaped anything must decode the same
+            back2 = _ihatexml.InfosetFilter().fromXmlName(out)
+            ctx.count("round_trips_fresh_decoder")
+            if back2 != name:
+                ctx.violation("round-trip-fresh-decoder", case, "InfosetFilter().fromXmlName(%r) = %r, original %r" % (out, back2, name))
+    # history independence: what one instance did before (public identifiers and comments share its replacement cache)
+    # must not change what it does to a name
+    f3 = _ihatexml.InfosetFilter(**(flags or {}))
+    try:
+        f3.coercePubid(name)
+        f3.coerceComment(name)
+        f3.coerceCharacters(name)
+    except Exception:
+        pass
+    ctx.count("history_independence_cases")
+    if f3.coerceElement(name) != outs[0] or f3.coerceAttribute(name) != outs[1]:
+        ctx.violation("name-result-depends-on-earlier-calls", case, "after coercePubid/coerceComment(%r): coerceElement = %r, fresh instance %r"
+                      % (name, f3.coerceElement(name), outs[0]))
     return outs[0]
 
 
